@@ -334,6 +334,31 @@ def element_twins(ctx, res, c):
     if b.serialize() != before or type(b) is not type(a):
         res.violation("element:clone-differs-at-birth", {"a": before[:300], "b": b.serialize()[:300]}, w)
         return
+    # what a clone answers to queries that leave its own subtree (absolute paths, root, siblings under its parent)
+    # is its own too: another clone taken or edited meanwhile must not show there
+    def reach(e):
+        par = e.parent
+        return (
+            [x.serialize() for x in e.get_elements("//*")],
+            [x.serialize() for x in e.xpath("//text:span")],
+            None if par is None else [x.serialize() for x in par.children],
+            e.root.serialize(),
+        )
+
+    rb = reach(b)
+    b2 = a.clone
+    b3 = b.clone
+    try:
+        b2.append("third twin")
+        b2.set_attribute("text:style-name", "third")
+        b3.set_span("Q", regex="a")
+    except Exception:
+        pass
+    res.judge()
+    res.cls(("Element", "life", "another-clone-taken-and-edited"), True)
+    if reach(b) != rb:
+        res.violation("element:another-clone-visible-from-this-clone", {"before": repr(rb)[:300], "after": repr(reach(b))[:300]}, w)
+        return
     for step in range(3):
         which = rng.choice("AB")
         t, other = (a, b) if which == "A" else (b, a)
